@@ -372,3 +372,19 @@ CHECKS["C09"] = {
     "trusted": ["in-process DOM incl. its HTML parser for set_inner_html (shim/web-sys)", "two separate builds of sycamore-web (SSR back end in harness/native, hydrate back end in harness/dom) fed the same view description"],
     "assumptions": ["sync SSR mode", "same view and same initial state on both sides"],
 }
+
+CHECKS["C05"] = {
+    "manifest_text": "Lean theorems over a model of client-side rendering (mount with node identities; a signal write re-creates only the dynamic views that read the written signal; dynamic text/attributes mirror the store; Show parks its children in a fragment and keeps them alive): for EVERY view description, store, counter and write history the document equals, up to node identities, a fresh render of the current state (C05_update_eq_fresh, via the realisation relation Realizes and C05_update_realizes), every node outside the regions whose signal was written keeps its identity and place (C05_identity_kept, C05_dom_outside_regions_same: equality WITH identities), new nodes are new and no identity is ever duplicated along any history (C05_new_nodes_are_new, C05_ids_distinct_always), a write that no dynamic view reads changes no node (C05_untouched). Tied to /repo by mounting thousands of generated views with the REAL DOM back end (dom_node.rs, _create_dynamic_view, Show, attribute effects) on an in-process DOM, writing signals, and comparing the serialised document INCLUDING node identities (canonically renamed by first appearance) with the model after every write; the real document is additionally compared with a real fresh render of the current state.",
+    "manifest_note": "The reactive scheduling below the view layer is abstracted by its contract (exactly the regions that track the written signal re-run, outer before inner, inner destroyed by an outer re-run), which is what C01-C04 establish; view language: elements with static/dynamic/boolean-dynamic attributes, text, dynamic text, dynamic views over alternatives (incl. empty and multi-node), Show, fragments — no events/bind/Keyed inside arbitrary views (lists: C06). Browser replaced by the in-process DOM (shim).",
+    "lean_modules": ["SycVerif.Props.C05"],
+    "theorems": [DV + n for n in ["C05_update_eq_fresh", "C05_one_write", "C05_update_realizes", "C05_updateList_realizes", "C05_realizes_shape", "C05_mount_realizes",
+                                  "C05_fresh_render_counter_irrelevant", "C05_fresh", "C05_identity_kept", "C05_identity_kept_list", "C05_dom_outside_regions_same",
+                                  "C05_new_nodes_are_new", "C05_ids_distinct_always", "C05_untouched", "C05_dom_ids"]],
+    "engines": [{"harness": "dom", "engine": "view"}],
+    "classes": ["view-stale", "view-panic"],
+    "status": "full statement proved over the model (all views of the modelled language, all histories)",
+    "partial": [],
+    "rule": "5 hand-written families (dynamic regions nested in elements, fragments, other dynamic regions and Show, x 3 stores and write histories) + 4000 (quick) / 150000 (thorough) random views: depth <= 4, <= 12 nodes, 1-3 signals, 1-8 writes with values 0..6 (alternative index = value mod n, Show visible iff odd, dynamic attribute absent iff value mod 3 = 0). distinct = distinct request line; non-trivial = at least one write",
+    "trusted": ["in-process DOM (shim/web-sys) instead of a browser", "hook cfg(sycamore_verif_dom): back-end selection on the native target"],
+    "assumptions": ["the contract of the reactive layer (C01-C04) for the effects behind dynamic parts"],
+}
